@@ -12,19 +12,36 @@ from vf import tlc, ir_eval
 from vf.core import MachineryError, exc_record
 
 
-def tlc_items(ctx, module, family, tier, cfg=None, workers=1, timeout=1500):
+JAVA_OPTS = "-XX:ParallelGCThreads=2"
+
+
+def _one_shard(args):
+    module, cfg, shard, nshards, timeout, extra_env = args
+    env = {"VF_SHARD": shard, "VF_NSHARDS": nshards, "JAVA_TOOL_OPTIONS": JAVA_OPTS}
+    env.update(extra_env or {})
+    return tlc.run(module, cfg, workers=1, deadlock=False, timeout=timeout, env=env)
+
+
+def tlc_items(ctx, module, family, tier, cfg=None, shards=1, timeout=1500, env=None, tag="PROG"):
+    """enumerate one program family with TLC (intended switches: TLC must report no violation).
+    shards > 1 splits the family over that many TLC processes (the spec reads VF_SHARD / VF_NSHARDS)."""
+    from concurrent.futures import ThreadPoolExecutor
     cfg = cfg or "%s_%s_%s.cfg" % (module, family, tier)
-    res = tlc.run(module, cfg, workers=workers, deadlock=False, timeout=timeout)
-    ctx.add_tlc(res, "oracle enumeration of family %s (%s)" % (family, tier))
-    if res.violated:
-        raise MachineryError("spec %s violates %s for family %s: fix the spec\n%s" % (module, res.violated, family, res.cex[:3000]))
-    items = res.tr("PROG")
+    jobs = [(module, cfg, i, shards, timeout, env) for i in range(shards)]
+    with ThreadPoolExecutor(max_workers=shards) as ex:
+        results = list(ex.map(_one_shard, jobs))
+    items = []
+    for i, res in enumerate(results):
+        ctx.add_tlc(res, "oracle enumeration of family %s (%s), shard %d/%d: invariants WellTyped, RejectsIffIndexBad, GenValueAgrees" % (family, tier, i + 1, shards))
+        if res.violated:
+            raise MachineryError("spec %s violates %s for family %s: fix the spec\n%s" % (module, res.violated, family, res.cex[:3000]))
+        items += res.tr(tag)
     if not items:
         raise MachineryError("TLC printed no program for family %s" % family)
     for it in items:
         it["tags"] = sorted(it["tags"])
-    items.sort(key=lambda it: it["id"])
-    return items, res
+    items.sort(key=lambda it: json.dumps(it["prog"], sort_keys=True))
+    return items, results
 
 
 def fval(v):
